@@ -269,6 +269,12 @@ def files(ctx: Ctx):
     for i, d in enumerate(designs):
         if i % 4 == 1 and junction_edit(ctx.rng, d):
             ctx.count('designs_with_an_edit_in_a_junction_codon')
+    # guide names written with a blank before or after them in the SGRNA tag of the PAM VCF (the tool strips them): every third design
+    for i, d in enumerate(designs):
+        if i % 3 == 2:
+            for k, e in enumerate(d.get('pam') or []):
+                if (i + k) % 2 == 0 and e.get('sgrna'):
+                    e['sgrna_raw'] = e['sgrna'] + ' ' if k % 2 == 0 else ' ' + e['sgrna']
     MODEL.clear()
     for d, r in pool_map_designs(designs):
         check_design(ctx, d, r)
